@@ -9,6 +9,8 @@ use std::collections::{BTreeSet, HashMap};
 static SAMPLES: std::sync::Mutex<Vec<String>> = std::sync::Mutex::new(Vec::new());
 pub fn note(f: impl FnOnce() -> String) { let mut g = SAMPLES.lock().unwrap(); if g.len() < 3 { let s = f(); g.push(s); } }
 pub fn samples() -> Vec<String> { SAMPLES.lock().unwrap().clone() }
+// the case about to run, recorded for the parent process: if the real code kills the process (stack overflow, abort) the parent reports this input
+pub fn trace(f: impl FnOnce() -> String) { if let Ok(p) = std::env::var("RX_TRACE") { let _ = std::fs::write(p, f()); } }
 pub struct Outcome { pub cases: usize, pub distinct: usize, pub fail: Option<String> }
 
 pub fn dv(id: u64, kind: Kind, bound: Option<(f64, f64)>) -> DecisionVariable {
@@ -125,6 +127,32 @@ pub fn c01() -> Outcome {
                 (Err(e), Some(w)) => return Outcome { cases: n, distinct: d.len(), fail: Some(format!("Function::evaluate failed ({e}) although every variable has a value (expected {w}): f={f:?} state={s:?}")) },
             }
         }
+    }
+    // extreme ids: 0 and u64::MAX are legal uint64 ids, in every position of every representation
+    {
+        use v1::function::Function as F;
+        let m = u64::MAX;
+        let fs: Vec<Function> = vec![
+            f_of(F::Linear(lin(&[(m, 2.0), (0, -1.0)], 0.5))),
+            f_of(F::Quadratic(quad(&[(m, 1, 3.0)], None))),
+            f_of(F::Quadratic(quad(&[(1, m, 3.0), (m, m, -1.0), (0, m, 2.0)], Some(lin(&[(m, 1.0)], 0.0))))),
+            f_of(F::Polynomial(poly(&[(&[m, 1, 0], 2.0), (&[m], -1.0), (&[0, 0, m], 0.5)]))),
+        ];
+        let ss: Vec<HashMap<u64, f64>> = vec![
+            [(m, 2.0), (1, 5.0), (0, -1.5)].into_iter().collect(),
+            [(1, 5.0), (0, -1.5)].into_iter().collect(),
+            [(m, 2.0), (1, 5.0)].into_iter().collect(),
+        ];
+        for (fi, f) in fs.iter().enumerate() { for (si, s) in ss.iter().enumerate() {
+            n += 1; d.insert((1000 + fi, si));
+            let st: State = s.clone().into_iter().collect();
+            match (f.evaluate(&st), ref_val(f, s)) {
+                (Ok((v, ids)), Some(w)) => if v != w || ids != ref_ids(f) { return Outcome { cases: n, distinct: d.len(), fail: Some(format!("Function::evaluate: f={f:?} state={s:?}: got value {v} ids {ids:?}, expected value {w} ids {:?}", ref_ids(f))) }; },
+                (Err(_), None) => {}
+                (Ok((v, _)), None) => return Outcome { cases: n, distinct: d.len(), fail: Some(format!("Function::evaluate returned Ok({v}) although the state lacks a variable of the function: f={f:?} state={s:?}")) },
+                (Err(e), Some(w)) => return Outcome { cases: n, distinct: d.len(), fail: Some(format!("Function::evaluate failed ({e}) although every variable has a value (expected {w}): f={f:?} state={s:?}")) },
+            }
+        } }
     }
     Outcome { cases: n, distinct: d.len(), fail: None }
 }
@@ -294,6 +322,13 @@ pub fn c12() -> Outcome {
         ("unknown id", inst(vec![dv(3, Kind::Integer, Some((0.0, 3.0)))], Function::default(), vec![]), 4u64),
         ("not integer", inst(vec![dv(3, Kind::Continuous, Some((0.0, 3.0)))], Function::default(), vec![]), 3),
         ("no bound", inst(vec![dv(3, Kind::Integer, None)], Function::default(), vec![]), 3),
+        ("not integer: semi-integer", inst(vec![dv(3, Kind::SemiInteger, Some((1.0, 3.0)))], Function::default(), vec![]), 3),
+        ("not integer: semi-continuous", inst(vec![dv(3, Kind::SemiContinuous, Some((1.0, 3.0)))], Function::default(), vec![]), 3),
+        ("not integer: binary", inst(vec![dv(3, Kind::Binary, Some((0.0, 1.0)))], Function::default(), vec![]), 3),
+        ("not integer: unspecified kind", inst(vec![dv(3, Kind::Unspecified, Some((0.0, 3.0)))], Function::default(), vec![]), 3),
+        ("infinite upper bound", inst(vec![dv(3, Kind::Integer, Some((0.0, f64::INFINITY)))], Function::default(), vec![]), 3),
+        ("infinite lower bound", inst(vec![dv(3, Kind::Integer, Some((f64::NEG_INFINITY, 4.0)))], Function::default(), vec![]), 3),
+        ("no integer inside", inst(vec![dv(3, Kind::Integer, Some((0.25, 0.75)))], Function::default(), vec![]), 3),
     ] {
         n += 1;
         let before = i.clone();
